@@ -134,7 +134,7 @@ def with_type(d, typ, rng):
 
 
 NUM_BORDERS = sorted(set([0, 1, 255, 256, 4095, 4096, 65535, 65536, 262143, 262144, 999999, 1000000, 2097151, 2097152,
-                          2 ** 24 - 1, 2 ** 24, 2 ** 31 - 1, 2 ** 31, 2 ** 32 - 1, 2 ** 32, 2 ** 33 - 1, 2 ** 33,
+                          2 ** 24 - 1, 2 ** 24, 2 ** 31 - 1, 2 ** 31, 2 ** 32 - 1, 2 ** 32, 2 ** 33 - 1, 2 ** 33, 2 ** 56 - 1, 2 ** 56,
                           9999999999, 10 ** 10, 10 ** 12 - 1, 10 ** 12, 2 ** 60 - 1, 2 ** 60, 2 ** 62 - 1, 2 ** 62, 2 ** 63 - 1]))
 
 
@@ -241,6 +241,132 @@ def gen_c10_cases(rng, tier):
                                    bpb=rng.choice([None, 512, 0, 10240, 1, 7]) if not needs_bilb1(fmt) else rng.choice([None, 512]),
                                    bilb=1 if needs_bilb1(fmt) else rng.choice([None, None, 1, 512]), nread=3 + extra)
 
+
+# --------------------------------------------------------------------------
+# C02: round trips of representable entries
+
+FMT_TYPES = {
+    'ustar': ['reg', 'dir', 'lnk', 'chr', 'blk', 'fifo'], 'pax': ['reg', 'dir', 'lnk', 'chr', 'blk', 'fifo'],
+    'paxr': ['reg', 'dir', 'lnk', 'chr', 'blk', 'fifo'], 'gnutar': ['reg', 'dir', 'lnk', 'chr', 'blk', 'fifo'],
+    'v7tar': ['reg', 'dir', 'lnk'], 'odc': TYPES, 'newc': TYPES, 'bin': ['reg', 'dir', 'lnk', 'chr', 'blk'],
+    'pwb': ['reg', 'dir', 'chr', 'blk'], 'arbsd': ['reg'], 'arsvr4': ['reg'], 'zip': ['reg', 'dir', 'lnk'],
+    '7zip': ['reg', 'dir', 'lnk'], 'xar': ['reg', 'dir', 'lnk', 'fifo'], 'iso9660': ['reg', 'dir', 'lnk'],
+    'mtree': ['reg', 'dir', 'lnk', 'chr', 'blk', 'fifo'], 'warc': ['reg'],
+}
+ID_MAX = {'ustar': 262143, 'v7tar': 262143, 'odc': 262143, 'gnutar': 2 ** 56 - 1, 'pax': 2 ** 53, 'paxr': 2 ** 53,
+          'mtree': 2 ** 53, 'newc': 2 ** 32 - 1, 'zip': 2 ** 32 - 1, 'bin': 65535, 'pwb': 65535, 'arbsd': 999999,
+          'arsvr4': 999999, 'xar': 2 ** 31 - 1, '7zip': 0, 'warc': 0, 'iso9660': 65535}
+MT_RANGE = {'ustar': (0, 8 ** 11 - 1), 'v7tar': (0, 8 ** 11 - 1), 'gnutar': (0, 8 ** 11 - 1), 'odc': (0, 8 ** 11 - 1),
+            'newc': (0, 2 ** 32 - 1), 'bin': (0, 2 ** 32 - 1), 'pwb': (0, 2 ** 32 - 1), 'zip': (0, 2 ** 32 - 1),
+            'arbsd': (0, 10 ** 12 - 1), 'arsvr4': (0, 10 ** 12 - 1), 'pax': (0, 2 ** 62), 'paxr': (0, 2 ** 62),
+            'mtree': (0, 2 ** 62), '7zip': (0, 910692730085), 'xar': (0, 253402300799),
+            'warc': (0, 2 ** 33), 'iso9660': (0, 2 ** 32 - 1)}
+SIZES = [0, 1, 2, 3, 511, 512, 513, 1023, 1024, 1025, 3000, 10239, 10240, 10241]
+
+
+def pick_border(rng, lo, hi):
+    cands = [v for v in NUM_BORDERS + [lo, hi, -1, -2 ** 31] if lo <= v <= hi]
+    return rng.choice(cands + [rng.randint(lo, min(hi, lo + 10 ** 6))])
+
+
+def c02_path(rng, fmt, k, typ):
+    """A pathname the format can hold, unique per k, shaped by the format's own limits."""
+    tag = f'{k:02d}'
+    if fmt in ('arbsd', 'arsvr4'):
+        n = rng.choice([1, 5, 13]) if fmt == 'arsvr4' else rng.choice([1, 14, 15, 16, 17, 40, 200])
+        return ('m' * max(1, n - 2) + tag)[:max(n, 3)]
+    shapes = ['short', 'short', 'deep'] + (['utf8'] if fmt != 'iso9660' else [])
+    if fmt in ('ustar', 'paxr', 'pax', 'gnutar', 'zip', '7zip', 'mtree', 'odc', 'newc', 'bin', 'pwb', 'xar'):
+        shapes += ['n99', 'n100', 'split', 'split155']
+    if fmt in ('pax', 'gnutar', 'zip', '7zip', 'mtree', 'odc', 'newc', 'bin', 'pwb', 'xar'):
+        shapes += ['n101', 'n255', 'n256', 'long']
+    if fmt == 'v7tar':
+        shapes += ['n98']
+    if fmt == 'warc':
+        shapes = ['short', 'deep', 'n99']
+    sh = rng.choice(shapes)
+    slashroom = 1 if typ == 'dir' else 0         # tar writers append '/' to directories
+    if sh == 'short':
+        return f'd{tag}/f{tag}'
+    if sh == 'deep':
+        return '/'.join(['a' + tag] + ['b'] * rng.choice([2, 5, 9]))
+    if sh == 'utf8':
+        return f'd{tag}/é中' + tag
+    if sh in ('n98', 'n99', 'n100', 'n101', 'n255', 'n256'):
+        n = int(sh[1:]) - slashroom
+        return ('q' * n + tag)[-n:] if False else (tag + 'q' * n)[:n]
+    if sh == 'split':          # total 101..255, '/' so that prefix <= 155 and name <= 100
+        nm = rng.choice([1, 50, 99, 100 - slashroom])
+        pf = rng.choice([1, 2, 100, 154, 155])
+        return (tag + 'p' * pf)[:pf] + '/' + 'n' * nm
+    if sh == 'split155':
+        return (tag + 'p' * 155)[:155] + '/' + 'n' * (100 - slashroom)
+    return tag + '/'.join(['L' * 60] * 8)
+
+
+def c02_entry(rng, fmt, k, prev_regs):
+    types = FMT_TYPES[fmt]
+    typ = rng.choice(types + ['reg', 'reg'])
+    d = dict(path=hx(c02_path(rng, fmt, k, typ)), type=typ, perm=rng.choice(['644', '755', '600', '0', '777', '7777', '4755']),
+             dev='5', ino=str(100 + k), nlink='1')
+    if fmt in ('xar',):
+        d['perm'] = rng.choice(['644', '755', '600', '0', '777'])
+    idm = ID_MAX[fmt]
+    d['uid'] = str(pick_border(rng, 0, idm)); d['gid'] = str(pick_border(rng, 0, idm))
+    lo, hi = MT_RANGE[fmt]
+    d['mtime'] = str(pick_border(rng, lo, hi))
+    if fmt in ('ustar', 'pax', 'paxr', 'gnutar', 'xar', 'mtree') and rng.random() < 0.7:
+        d['uname'] = hx(rng.choice(['u', 'root', 'u' * 31, 'u' * 32] + (['ü' * 5] if fmt != 'mtree' else [])))
+        d['gname'] = hx(rng.choice(['g', 'wheel', 'g' * 31, 'g' * 32]))
+    if typ == 'reg':
+        size = rng.choice(SIZES)
+        d['size'] = str(size)
+        blen = rng.choice([size, size, size, max(0, size - 1), size + 5]) if fmt not in SPOOLING and fmt not in ('warc', 'arbsd', 'arsvr4') else size
+        d['body'] = f'{rng.randrange(256)}:{blen}'
+        if blen:
+            d['chunks'] = ','.join(str(rng.choice([1, 2, 7, 100, 511, 512, 513, 5000])) for _ in range(rng.choice([1, 2, 3])))
+        if prev_regs and fmt in ('ustar', 'pax', 'paxr', 'gnutar', 'v7tar') and rng.random() < 0.2:
+            d['hard'] = prev_regs[-1]; d['size'] = '0'; d.pop('body'); d.pop('chunks', None)
+    else:
+        d['size'] = '0'
+    if typ == 'lnk':
+        n = rng.choice([1, 10, 98, 99] + ([100] if fmt != 'v7tar' else []) + ([101, 300] if fmt in ('pax', 'gnutar', 'zip', '7zip', 'odc', 'newc', 'mtree', 'xar') else []))
+        d['sym'] = hx(('t' * n))
+    if typ in ('chr', 'blk'):
+        mx = {'ustar': 262143, 'gnutar': 262143, 'odc': 255, 'bin': 255, 'pwb': 255}.get(fmt, 2 ** 20)
+        d['rdevmajor'] = str(rng.choice([0, 1, 8, 255, mx])); d['rdevminor'] = str(rng.choice([0, 3, 255, mx if fmt not in ('odc',) else 255]))
+    return d
+
+
+FILTERS = ['gzip', 'bzip2', 'xz', 'zstd', 'lz4', 'compress', 'uuencode', 'b64encode']
+
+
+def gen_c02_cases(rng, tier):
+    per = {'quick': 18, 'thorough': 160}[tier]
+    for fmt in ALL_FMTS:
+        n = per * (3 if fmt in BYTE_FMTS else 1)
+        for i in range(n):
+            ents, regs = [], []
+            for k in range(rng.choice([1, 1, 2, 3, 5])):
+                e = c02_entry(rng, fmt, k, regs)
+                if e['type'] == 'reg' and 'hard' not in e:
+                    regs.append(e['path'])
+                ents.append(e)
+            bpb = rng.choice([None, 0, 1, 7, 512, 513, 10240, 20480])
+            if fmt == 'zip' and bpb == 20480:
+                bpb = 10240      # more than ~16 KiB of NUL padding hides the end-of-central-directory record from the seeking reader
+            bilb = 1 if needs_bilb1(fmt) else rng.choice([None, None, 1, 512, 513])
+            if needs_bilb1(fmt) and bpb == 0:
+                bpb = None
+            filt = rng.choice(FILTERS) if rng.random() < 0.25 and fmt != '7zip' else None   # the 7zip reader needs a seekable source
+            o = f'open f={fmt}' + (f' bpb={bpb}' if bpb is not None else '') + (f' bilb={bilb}' if bilb is not None else '') + (f' filter={filt}' if filt else '')
+            extra = 40 if fmt == 'iso9660' else 1
+            ops = [o] + [ent_line(e) for e in ents] + ['close'] + [f'rd {j}' for j in range(len(ents) + extra)]
+            g = fmt if rng.random() < 0.7 or fmt == 'mtree' else rng.choice(BYTE_FMTS + ['pax', 'gnutar', 'zip'])   # mtree holds no bodies
+            ops += [f'rewrite f={g}' + (' bilb=1' if needs_bilb1(g) else '')] + [f'rd2 {j}' for j in range(len(ents) + (40 if 'iso9660' in (fmt, g) else 1))]
+            ops += ['done']
+            yield Case(f'c02-{fmt}-{i}', ops, {'fmt': fmt})
+
 class Codec(Engine):
     name = 'codec'
     extra_cflags = tuple(os.path.join(H, f) for f in INC)
@@ -262,6 +388,10 @@ class Codec(Engine):
         if not self.bulk:
             yield from gen_fmt_cases(rng, tier)
             yield from gen_atol_cases(rng, tier)
+        if self.mode == 'c02':
+            for c in gen_c02_cases(rng, tier):
+                if self.bulk or rng.random() < (0.1 if tier == 'quick' else 0.3):
+                    yield c
         if self.mode == 'c10':
             for c in gen_c10_cases(rng, tier):
                 # sanitizer build: a sample; plain build: everything
